@@ -107,6 +107,12 @@ inline void parse_args(int argc, char** argv)
             c.art_prefix = need("--art");
         else if (a == "--limit")
             c.limit = std::stoll(need("--limit"));
+        else if (a == "--shard")
+        {
+            std::string sh = need("--shard"); // i/n
+            c.shard_i = std::stoll(sh.substr(0, sh.find('/')));
+            c.shard_n = std::stoll(sh.substr(sh.find('/') + 1));
+        }
         else if (a == "--replay")
         {
             c.driver = "replay";
@@ -163,12 +169,16 @@ inline int main_impl(int argc, char** argv)
     else if (c.driver == "enum")
     {
         EnumSrc src;
-        long long n = 0;
+        long long n = 0, generated = 0;
         bool complete = true;
         do
         {
             src.begin();
             h::Case cs = h::generate(src, c.mode);
+            // sharded enumeration: every worker walks the whole space and checks
+            // only its residue class of case numbers
+            if (c.shard_n > 1 && (generated++ % c.shard_n) != c.shard_i)
+                continue;
             std::string msg = run_case(cs);
             ++n;
             if (!msg.empty())
